@@ -151,7 +151,8 @@ CHECKS["C18"] = (
     "Theorems: validate_prior = Ok IFF every required parameter is present with a unit of the canonical dimension and every linear and offset "
     "parameter has a Normal-family prior (the accept set is pinned exactly); par_names = nonlinear ++ linear ++ offsets; validate_data = Ok IFF a "
     "single diagonal-error RVData with 0 offsets or k+1 diagonal-error RVData sources with k offsets. Each run Coq compares verdict, failing check "
-    "class and the parameter named with the implementation on ~590 systematically perturbed configurations (exhaustive single perturbations).",
+    "class and the parameter named with the implementation on ~590 systematically perturbed configurations (exhaustive single perturbations). "
+    "tools/py2v_prior.py regenerates JokerPrior.__init__'s two validation loops, par_names and the required-unit tables of prior_helpers.py from source (Gen/PriorGen.v, accepted only in the pinned statement forms); Props/C18g.v proves the generated loops equal the model, hence accept exactly the well-formed priors and list parameters nonlinear, linear, offsets.",
     "Trusted: Coq kernel + vm_compute; mapping of exception messages to (check class, parameter); pymc/pytensor build distributions as declared. "
     "'Normal-family' is recognised by the code through the distribution's print name (Normal / FixedCompanionMass): subclasses with other print "
     "names are outside the grid.",
